@@ -77,11 +77,12 @@ func builderEffect(r *Repo, method string, nargs int) bEffect {
 		}()
 		fm := newFrontModel(r)
 		m := fm.m
+		// three marked operands (m1 on top) put there by the builder itself, and a marked finished
+		// item at the back of the tree's list
 		mk := func(tag string) *Obj { return m.node("TypeCharacter", tag) }
-		marks := []*Obj{mk("m1"), mk("m2"), mk("m3")}
 		q := mk("q")
-		for i := len(marks) - 1; i >= 0; i-- {
-			fm.it.invoke(nil, m.method("PushFront", fm.tree), []Value{marks[i]})
+		for _, tag := range []string{"m3", "m2", "m1"} {
+			fm.call("AddCharacter", tag)
 		}
 		fm.it.invoke(nil, m.method("PushBack", fm.tree), []Value{q})
 		var args []Value
@@ -89,18 +90,23 @@ func builderEffect(r *Repo, method string, nargs int) bEffect {
 			args = append(args, "a")
 		}
 		fm.call(method, args...)
-		list := m.kids(fm.tree.field("node").v.(*Obj))
 		isMark := func(n *Obj) int {
-			for i, mm := range marks {
-				if n == mm {
-					return i
-				}
-			}
 			if n == q {
 				return 3
 			}
+			if m.typeOf(n) == "TypeCharacter" && len(m.kids(n)) == 0 {
+				switch m.strOf(n) {
+				case "m1":
+					return 0
+				case "m2":
+					return 1
+				case "m3":
+					return 2
+				}
+			}
 			return -1
 		}
+		list := m.kids(fm.tree.field("node").v.(*Obj))
 		qi := -1
 		for i, n := range list {
 			if isMark(n) == 3 {
@@ -108,23 +114,33 @@ func builderEffect(r *Repo, method string, nargs int) bEffect {
 			}
 		}
 		if qi < 0 {
-			be.err = "the method pops more than three nodes (it consumed the queue marker)"
+			be.err = "the method consumed the marker of the finished items"
 			return
 		}
-		// the stack side is what lies before the queue marker
+		// the operand side: the builder's own stack, or what lies before the queue marker
+		var stack []*Obj
+		if fm.separateOperands() {
+			stack = fm.operands()
+			if qi != 0 {
+				// finished items before the marker were put at the front of the list
+				stack = append(append([]*Obj{}, list[:qi]...), stack...)
+			}
+		} else {
+			stack = list[:qi]
+		}
 		remaining, firstMark := 0, -1
-		for i := 0; i < qi; i++ {
-			if k := isMark(list[i]); k >= 0 && k < 3 {
+		for i, n := range stack {
+			if k := isMark(n); k >= 0 && k < 3 {
 				remaining++
 				if firstMark < 0 {
 					firstMark = i
 				}
 			}
 		}
-		be.pops = 3 - remaining
 		if firstMark < 0 {
-			firstMark = qi
+			firstMark = len(stack)
 		}
+		be.pops = 3 - remaining
 		be.front = firstMark
 		be.back = len(list) - 1 - qi
 	}()
@@ -156,7 +172,7 @@ func checkC10(c *Check) {
 	}
 	stackEffects(c, r, g)
 	escapeDecoders(c, r)
-	escapeCaptures(c, g)
+	escapeCaptures(c, r, g)
 	caseFoldBuilders(c, r)
 	builderShapes(c, r)
 	// The shape rules of the first version (escape table, quote routing,
@@ -215,7 +231,7 @@ func builderShapes(c *Check, r *Repo) {
 				}
 				fm.call(cs.Method, args...)
 			}
-			top := fm.m.kids(fm.tree.field("node").v.(*Obj))
+			top := fm.operands()
 			got := ""
 			if len(top) == 1 {
 				got = fm.m.dump(top[0], 0, map[*Obj]bool{})
@@ -310,18 +326,6 @@ func operatorRouting(c *Check, g *pgrammar) {
 type callSite struct {
 	Method string
 	Args   []string
-}
-
-func actionCalls(code string) []callSite {
-	var out []callSite
-	for _, m := range reCall.FindAllStringSubmatch(code, -1) {
-		cs := callSite{Method: m[1]}
-		if strings.TrimSpace(m[2]) != "" {
-			cs.Args = []string{strings.TrimSpace(m[2])}
-		}
-		out = append(out, cs)
-	}
-	return out
 }
 
 func stackEffects(c *Check, r *Repo, g *pgrammar) {
@@ -643,7 +647,7 @@ func escapeDecoders(c *Check, r *Repo) {
 			}()
 			fm := newFrontModel(r)
 			fm.call(pr.method, pr.text)
-			list := fm.m.kids(fm.tree.field("node").v.(*Obj))
+			list := fm.operands()
 			if len(list) != 1 {
 				badNum[pr.method] = append(badNum[pr.method], pr.text+": pushes "+fmt.Sprint(len(list))+" nodes")
 				return
@@ -871,7 +875,7 @@ func caseFoldBuilders(c *Check, r *Repo) {
 		for _, ch := range []string{"a", "Z"} {
 			fm := newFrontModel(r)
 			fm.call("AddDoubleCharacter", ch)
-			top := fm.m.kids(fm.tree.field("node").v.(*Obj))
+			top := fm.operands()
 			got := ""
 			if len(top) == 1 {
 				got = fm.m.dump(top[0], 0, map[*Obj]bool{})
@@ -885,7 +889,7 @@ func caseFoldBuilders(c *Check, r *Repo) {
 		fm.call("AddCharacter", "b")
 		fm.call("AddCharacter", "Y")
 		fm.call("AddDoubleRange")
-		top := fm.m.kids(fm.tree.field("node").v.(*Obj))
+		top := fm.operands()
 		got := ""
 		if len(top) == 1 {
 			got = fm.m.dump(top[0], 0, map[*Obj]bool{})
